@@ -74,6 +74,30 @@ def cases(tier, seed, info):
                                    sub=rng.choice(['none', 'archive_with_pel1', 'dir_named_id1', 'both'])),
                         cmds=cmds, extra=rng.randint(0, 6)))
     info['random_behaviours'] = m
+    # structured family: the id occurs ONLY below the top level (in a subdirectory's name or in names of files
+    # inside it), or only in names that hold fewer than all 8 digits
+    import itertools
+    k = 0
+    for sub in ('archive_with_pel1', 'dir_named_id1', 'both'):
+        for r_ in (0, 1, 2, 4):
+            for topset in list(itertools.combinations(['p2', 'p3', 'j1', 'o1'], r_))[:4]:
+                k += 1
+                out.append(dict(origin='structured', seed=seed * 3 + k + 9000017, tree0=dict(top=list(topset), sub=sub),
+                                cmds=[dict(k='delete', id=1), dict(k='id', id=1), dict(k='delete', id=1),
+                                      dict(k='deleteall'), dict(k='delete', id=1)], extra=0))
+    info['structured_trees'] = k
+    # every combination of the twelve mode options (+ --clean), emitted by TLC
+    combos, _ = tlc.generate('gen/Gen_CliModes')
+    rng.shuffle(combos)
+    nc = 240 if tier == 'quick' else len(combos)
+    for j in range(0, nc, 6):
+        out.append(dict(origin='modes', seed=seed * 13 + j + 5000011,
+                        tree0=dict(top=rng.sample(tops, rng.randint(3, 6)),
+                                   sub=rng.choice(['archive_with_pel1', 'dir_named_id1', 'both'])),
+                        cmds=[dict(k='multi', named=sorted(c['modes']), clean=c['clean'], id=rng.choice([1, 1, 2, 4, 5]),
+                                   f=rng.choice(tops)) for c in combos[j:j + 6]], extra=rng.randint(0, 3)))
+    info['mode_combinations_from_tlc'] = len(combos)
+    info['mode_combinations_used'] = nc
     return out
 
 
@@ -197,7 +221,7 @@ def argv_for(c, root, names, rng):
     idstr = rng.choice(['%08X', '0x%08X', '%08x', '0X%08X']) % idv
     base = ['-p', pels]
     f = os.path.join(pels, names.get(c.get('f', 'p1'), 'p1'))
-    table = {
+    table = {} if k == 'multi' else {
         'list': base + ['-l'], 'all': base + ['-a'], 'count': base + ['-n'],
         'plid': base + ['--plid', idstr], 'src': base + ['--src', 'BD8D'],
         'srcex': base + ['--src-exclude', os.path.join(root, 'exclude.txt')],
@@ -212,6 +236,19 @@ def argv_for(c, root, names, rng):
         'count+delete': base + ['-n', '-d', idstr], 'plid+delete': base + ['--plid', idstr, '-d', idstr],
         'deletebadid': base + ['-d', '%07X' % (idv & 0xFFFFFFF)],
     }
+    if k == 'multi':
+        flags = {'file': ['-f', f], 'json': ['-j', '-o', os.path.join(root, 'out')], 'id': ['-i', idstr],
+                 'bmcid': ['--bmc-id', str(IDS[1] & 0xFFFF)], 'plid': ['--plid', idstr], 'src': ['--src', 'BD8D'],
+                 'srcex': ['--src-exclude', os.path.join(root, 'exclude.txt')], 'list': ['-l'], 'count': ['-n'],
+                 'all': ['-a'], 'delete': ['-d', idstr], 'deleteall': ['-D']}
+        named = list(c['named'])
+        rng.shuffle(named)
+        argv = list(base)
+        for m in named:
+            argv += flags[m]
+        if c['clean']:
+            argv.append('-c')
+        return argv, '%08X' % idv, f
     return table[k], '%08X' % idv, f
 
 
@@ -228,7 +265,8 @@ def run_case(case):
         res = seams.run_cli(argv)
         after = snapshot(root, eids)
         shape = all(e['type'] in ('f', 'd') for e in before + after)
-        recs.append(dict(shape_ok=shape, origin=case['origin'], step=step, cmd=c,
+        recs.append(dict(shape_ok=shape, origin=case['origin'], step=step, cmd=c, named=c.get('named', []),
+                         clean=bool(c.get('clean', False)),
                          argv=[a.replace(root, '<root>') for a in argv],
                          idcp=[ord(ch) for ch in idu],
                          fpath=os.path.relpath(fpath, os.path.join(root, 'pels')),
